@@ -804,9 +804,20 @@ class Engine:
                 if h.name:
                     a.env[h.name] = exc
                 a.excstack.append(exc)
+                # ghost (C13): an explicit Error field must never be swallowed; re-raising handlers leave through 'raise'
+                code = self.src.exc_code.get('ExplicitError')
+                if code is not None:
+                    is_explicit = t.eq(exc.cls, I(code))
+                    k = a.known(is_explicit)
+                    if k is not False:
+                        prev = a.ghost.get('swallowed_explicit', t.FALSE)
+                        a.ghost['swallowed_explicit_pending'] = t.or_(prev, t.TRUE if k else is_explicit)
                 for st2, fl in self.block(h.body, a):
                     if st2.excstack:
                         st2.excstack.pop()
+                    pend = st2.ghost.pop('swallowed_explicit_pending', None)
+                    if pend is not None and not (fl is not None and fl[0] == 'raise'):
+                        st2.ghost['swallowed_explicit'] = pend     # the handler completed without raising: swallowed
                     out.append((st2, fl))
             cur = b
         if cur is not None:
@@ -963,6 +974,13 @@ class Engine:
             for label, cond in self.models.interface.loop_frame_clauses(self, head):
                 head.assume(cond)
             frame_on = True
+        # ghost 'an ExplicitError was swallowed' is carried through every loop as well
+        sw0 = entry.ghost.get('swallowed_explicit', t.FALSE)
+        sw_on = any(isinstance(x, ast.Try) for x in ast.walk(n))
+        if sw_on:
+            swh = fresh('swallowed', t.BOOL)
+            head.ghost['swallowed_explicit'] = swh
+            head.assume(t.implies(t.not_(sw0), t.not_(swh)))
         # adversarial streams: 'no short read/write has been silently accepted so far' is carried through every loop
         shorts = []
         for loc, o0 in entry.store.items():
@@ -1011,6 +1029,9 @@ class Engine:
                                 if isinstance(vv, VInt) and tester == 'isint':
                                     goal = t.TRUE
                                 self.emit(st2, '%s/loop[%s]/preserve/type-of-%s' % (fname, text, name), goal, kind='loop-preserve', tags=spec.tags)
+                            if sw_on:
+                                self.emit(st2, '%s/loop[%s]/preserve/no-ExplicitError-swallowed' % (fname, text),
+                                          t.implies(t.not_(sw0), t.not_(st2.ghost.get('swallowed_explicit', t.FALSE))), kind='loop-preserve', tags=('C13',))
                             if frame_on:
                                 for label, cond in self.models.interface.loop_frame_clauses(self, st2):
                                     self.emit(st2, '%s/loop[%s]/preserve/%s' % (fname, text, label), cond, kind='loop-preserve', tags=('C17',))
